@@ -142,7 +142,7 @@ func (h ProtectedHeader) SetCWTClaims(claims CWTClaims) (CWTClaims, error) {
 
 // Algorithm gets the algorithm value from the algorithm header.
 func (h ProtectedHeader) Algorithm() (Algorithm, error) {
-	value, ok := h[HeaderLabelAlgorithm]
+	value, ok := lookupLabel(h, HeaderLabelAlgorithm)
 	if !ok {
 		return AlgorithmReserved, ErrAlgorithmNotFound
 	}
@@ -174,7 +174,7 @@ func (h ProtectedHeader) Algorithm() (Algorithm, error) {
 // Notice: The COSE Hash Envelope API is EXPERIMENTAL and may be changed or
 // removed in a later release.
 func (h ProtectedHeader) PayloadHashAlgorithm() (Algorithm, error) {
-	value, ok := h[HeaderLabelPayloadHashAlgorithm]
+	value, ok := lookupLabel(h, HeaderLabelPayloadHashAlgorithm)
 	if !ok {
 		return AlgorithmReserved, ErrAlgorithmNotFound
 	}
@@ -201,7 +201,7 @@ func (h ProtectedHeader) PayloadHashAlgorithm() (Algorithm, error) {
 //
 // Reference: https://datatracker.ietf.org/doc/html/rfc8152#section-3.1
 func (h ProtectedHeader) Critical() ([]any, error) {
-	value, ok := h[HeaderLabelCritical]
+	value, ok := lookupLabel(h, HeaderLabelCritical)
 	if !ok {
 		return nil, nil
 	}
@@ -227,7 +227,7 @@ func ensureCritical(value any, headers map[any]any) error {
 		if !canInt(label) && !canTstr(label) {
 			return fmt.Errorf("require int / tstr type, got '%T': %v", label, label)
 		}
-		if _, ok := headers[label]; !ok {
+		if !hasLabel(headers, label) {
 			return fmt.Errorf("missing critical header: %v", label)
 		}
 	}
@@ -500,10 +500,36 @@ func (h *Headers) ensureIV() error {
 	return nil
 }
 
-// hasLabel returns true if h contains label.
+// hasLabel returns true if h contains label, whichever Go integer type the
+// label or the map key is spelt with.
 func hasLabel(h map[any]any, label any) bool {
+	if n, ok := normalizeLabel(label); ok {
+		if l, isInt := n.(int64); isInt {
+			_, found := lookupLabel(h, l)
+			return found
+		}
+	}
 	_, ok := h[label]
 	return ok
+}
+
+// lookupLabel returns the value of the header parameter with the given integer
+// label. Labels are compared after normalization, so a key spelt int(1),
+// uint8(1) or int64(1) denotes the same parameter, as it does when the header
+// is validated and encoded.
+func lookupLabel(h map[any]any, label int64) (any, bool) {
+	if v, ok := h[label]; ok {
+		return v, true
+	}
+	for k, v := range h {
+		if _, isInt64 := k.(int64); isInt64 {
+			continue
+		}
+		if n, ok := normalizeLabel(k); ok && n == any(label) {
+			return v, true
+		}
+	}
+	return nil, false
 }
 
 // validateHeaderParameters validates all headers conform to the spec.
